@@ -1021,6 +1021,9 @@ def run(tier: str, seed: int) -> dict:
 
 
 def replay(case: dict):
+    if isinstance(case, dict) and case.get("kind") == "bitreader":
+        from rtc.c13_bits import replay_bitreader
+        return replay_bitreader(case)
     _common.use_repo()
     kind = case.get("kind")
     if kind == "vector":
